@@ -13,6 +13,7 @@ from fam_data import DataFamily
 from fam_error import ErrorFamily
 from fam_gen import GenFamily
 from fam_flow import FlowFamily
+from fam_sub import SubFamily
 
 DET = {'flavor': 'current'}
 
@@ -50,26 +51,39 @@ def normal_form(h, declared):
         msgs[(e['pid'], e['type'], name, ('~' if name == '~' and e['key'] == e['nid'] else e['key']), e['uses'], e['state'], e['tag'], json.dumps(opts.get('$index')), json.dumps(opts.get('$value')),
               json.dumps(clean(e.get('inputs')), sort_keys=True), json.dumps(clean(e.get('outputs')), sort_keys=True))] += 1
     cbs = collections.Counter((e['pid'], e['what'], e['state'], json.dumps(clean(e.get('outputs')), sort_keys=True)) for e in h.cbs)
-    fin = collections.Counter((k[0], t['nid'] if t['nid'] in declared else '~', t['kind'], t['state']) for k, t in h.final_tasks().items())
+    # final task outcomes from the task rows (which processes are cached at the end is not part of the outcome)
+    snap = h.final_snapshot() or {}
+    fin = collections.Counter()
+    if isinstance(snap.get('tasks'), list):
+        for r in snap['tasks']:
+            try:
+                nid = json.loads(r['node_data']).get('id')
+            except Exception:
+                nid = None
+            fin[(r['pid'], nid if nid in declared else '~', r['kind'], r['state'])] += 1
+    else:
+        fin = collections.Counter((k[0], t['nid'] if t['nid'] in declared else '~', t['kind'], t['state']) for k, t in h.final_tasks().items())
     return msgs, cbs, fin
 
 
 class RestartFamily:
     name = 'restart'
-    BASES = {'flow': FlowFamily(), 'gen': GenFamily(), 'data': DataFamily(), 'error': ErrorFamily()}
+    BASES = {'flow': FlowFamily(), 'gen': GenFamily(), 'data': DataFamily(), 'error': ErrorFamily(), 'sub': SubFamily()}
 
     def gen(self, rng, idx, opts):
-        base = opts.get('base') or rng.choice(['flow', 'flow', 'gen', 'data', 'error'])
+        base = opts.get('base') or rng.choice(['flow', 'flow', 'gen', 'data', 'error', 'sub'])
         store = opts.get('store', 'mem')
         fam = self.BASES[base]
-        sub_opts = {'flow': {'sub': 'plain', 'variants': 1, 'scheds': ['cur-fifo']}, 'gen': {'sub': rng.choice(['gen', 'gen', 'hooks'])}, 'data': {}, 'error': {}}[base]
+        sub_opts = {'flow': {'sub': 'plain', 'variants': 1, 'scheds': ['cur-fifo']}, 'gen': {'sub': rng.choice(['gen', 'gen', 'hooks'])}, 'data': {}, 'error': {'evict': 0.0}, 'sub': {'evict': 0.0}}[base]
         c = fam.gen(rng, idx, sub_opts)
         sc = c['scenarios'][0]
         sc['runtime'] = dict(DET)
         sc['responder']['mode'] = 'quiescent'
         sc['responder']['order'] = 'fifo'
         sc['engine'] = {'store': store, 'keep_processes': True}
+        sc.pop('faults', None)
         sc['ops'] = [o if o.get('op') != 'run' else {'op': 'run', 'snap': 'none'} for o in sc['ops']]
+        sc['ops'] = [o if o.get('op') != 'snapshot' else {'op': 'snapshot', 'level': 'rows'} for o in sc['ops']]
         if base == 'flow' and rng.random() < 0.3:
             sc['models'] = [json.dumps(flow.strip_ids(json.loads(sc['models'][0]), rng))]
         sc['family'] = 'restart'
